@@ -12,6 +12,28 @@ QUICK = dict(s_runs=1200, s_enum=6, g_graphs=150, g_sels=6)
 THOROUGH = dict(s_runs=30000, s_enum=400, g_graphs=3000, g_sels=10)
 
 
+def corpus_items(pid, kind):
+    """Minimised past failures and pinned inputs of known findings: replayed first on every run."""
+    d = os.path.join(common.VERIF, "corpus", pid)
+    out = []
+    if os.path.isdir(d):
+        for f in sorted(os.listdir(d)):
+            if f.endswith(".json"):
+                try:
+                    sc = json.load(open(os.path.join(d, f))).get("scenario")
+                except ValueError:
+                    continue
+                if not isinstance(sc, dict):
+                    continue
+                if kind == "S" and "specs" in sc and "maxc" in sc:
+                    out.append((f, sc))
+                elif kind == "G" and "specs" in sc and "maxc" not in sc:
+                    out.append((f, sc))
+                elif kind == "V" and "defs" in sc:
+                    out.append((f, sc))
+    return out
+
+
 def budget(tier):
     return QUICK if tier == "quick" else THOROUGH
 
@@ -43,8 +65,11 @@ RULE_S = {
 }
 
 
-def scenario_stream(seed, count, pid):
+def scenario_stream(seed, count, pid, with_corpus=True):
     base = random.Random("%s/%d" % (pid, seed))
+    if with_corpus:
+        for name, sc in corpus_items(pid, "S"):
+            yield "c_" + name.replace(".json", "").replace(" ", ""), sc
     for k in range(count):
         rng = random.Random(base.randrange(1 << 62))
         kw = {}
@@ -113,7 +138,7 @@ def run_S(pid, tier, seed, cp_mode="real", props_monitored=None, extra_fail_sig=
             samples.append(dict(scenario=sc, protocol=text.splitlines()))
 
     for k, sc in scenario_stream(seed, B["s_runs"], pid):
-        one("r%d" % k, sc, S.run_scenario(sc))
+        one("r%s" % k, sc, S.run_scenario(sc))
     for k, sc in small_scenarios(seed, B["s_enum"]):
         facts_total["enumerated_scenarios"] += 1
         for j, (sc2, obs) in enumerate(enumerate_scripts(sc, 60 if tier == "quick" else 400)):
@@ -170,7 +195,7 @@ def run_S(pid, tier, seed, cp_mode="real", props_monitored=None, extra_fail_sig=
                 if found:
                     return found
         # 2. the random budget again under the monitors only
-        for k, sc in scenario_stream(seed + 7919, B["s_runs"], pid):
+        for k, sc in scenario_stream(seed + 7919, B["s_runs"], pid, with_corpus=False):
             obs = S.run_scenario(sc)
             V, _ = S.monitors(sc, obs)
             for (p, sig, detail) in V:
@@ -278,6 +303,11 @@ def spec_cp(preds, prio):
 
 def graph_stream(seed, count, pid, **kw):
     base = random.Random("%s/g/%d" % (pid, seed))
+    for j, (name, sc) in enumerate(corpus_items(pid, "G")):
+        for s_ in sc["specs"]:
+            if isinstance(s_.get("tag"), list):
+                s_["tag"] = tuple(s_["tag"])
+        yield "c%d" % j, sc, random.Random("corpus/" + name)
     for k in range(count):
         yield k, G.gen(random.Random(base.randrange(1 << 62)), **kw), random.Random(base.randrange(1 << 62))
 
@@ -380,8 +410,8 @@ def run_G(pid, tier, seed):
                 bad("cp-table-wrong/after-config", sc, real=dict(zip(ids_, real2)), want=dict(zip(ids_, want2)),
                     reconfigured=("n%d" % tgt, newp))
             prio, want_cp = prio2, want2
-            blocks.append(G.graph_block("c%d" % k, preds, prio, debug, ["cp"]))
-            queries.append(("c%d" % k, [("cp", dict(real=real2, where="after-config"))], sc))
+            blocks.append(G.graph_block("cfg%s" % k, preds, prio, debug, ["cp"]))
+            queries.append(("cfg%s" % k, [("cp", dict(real=real2, where="after-config"))], sc))
         if any(debug):
             stats["with_debug_nodes"] += 1
         # selections
@@ -462,8 +492,8 @@ def run_G(pid, tier, seed):
             elif real[0] == "VALUEERROR":
                 stats["valueerrors"] += 1
         G.set_debug(False)
-        blocks.append(G.graph_block("q%d" % k, preds, prio0, debug, qlines))
-        queries.append(("q%d" % k, meta, sc))
+        blocks.append(G.graph_block("q%s" % k, preds, prio0, debug, qlines))
+        queries.append(("q%s" % k, meta, sc))
         if len(samples) < 3:
             samples.append(dict(scenario=sc, protocol=blocks[-1].splitlines()))
 
@@ -608,3 +638,212 @@ reg("C07", ["GM.C07_cp_is_own_plus_distinct_descendants", "GM.C07_cp_order_indep
     run_G, ASSUME_G)
 reg("C12", ["GM.C12_closure", "GM.selectNodes_spec", "GM.selectNodes_none", "GM.mem_descAll_iff"], run_G, ASSUME_G)
 reg("C13", ["GM.C13_pulled_debug_has_inputs", "GM.C13_flag_off_no_debug", "GM.selectNodes_spec"], run_G, ASSUME_G)
+
+
+# ---------------------------------------------------------------------------------------------
+# slice V engine (programs): C01, C10, C20, C17(a)
+# ---------------------------------------------------------------------------------------------
+import slice_v as V  # noqa: E402
+
+
+def prog_features(mod):
+    nested = any(s["k"] == "dag" for d in mod["defs"] for s in d["body"])
+    flagged = any(s.get("flag") is not None for d in mod["defs"] for s in d["body"])
+    dagflag = any(s["k"] == "dag" and s.get("flag") is not None for d in mod["defs"] for s in d["body"])
+    unpack = any(s.get("unpack") for d in mod["defs"] for s in d["body"])
+    defaults = any("default" in p for d in mod["defs"] for p in d["params"])
+    return dict(nested=nested, flagged=flagged, dagflag=dagflag, unpack=unpack, defaults=defaults,
+                twice=V.same_callee_twice(mod), shape=mod["defs"][-1]["ret"]["shape"])
+
+
+def returns_unsupplied_default(mod):
+    """Some flagged nested call leaves a defaulted parameter unsupplied that the callee returns as is."""
+    for d in mod["defs"]:
+        for st in d["body"]:
+            if st["k"] == "dag" and st.get("flag") is not None:
+                callee = mod["defs"][st["callee"]]
+                for _k, a in callee["ret"]["items"]:
+                    if a[0] == "v" and a[1] < len(callee["params"]) and not a[2] \
+                            and "default" in callee["params"][a[1]] and a[1] >= len(st["args"]):
+                        return True
+    return False
+
+
+def prog_signature(kind, mod, real):
+    f = prog_features(mod)
+    sig = kind
+    if kind == "build-error":
+        sig += ":" + real[1]
+        if f["twice"] and real[1] == "KeyError":
+            sig += "/same-inner-dag-twice"
+        return sig
+    if f["dagflag"]:
+        sig += "/flag-on-nested-dag"
+        if kind == "wrong-value" and returns_unsupplied_default(mod):
+            sig += "/returns-unsupplied-default"
+    elif f["nested"]:
+        sig += "/nested"
+    elif f["flagged"]:
+        sig += "/flagged"
+    return sig
+
+
+def module_stream(seed, count, pid):
+    base = random.Random("%s/v/%d" % (pid, seed))
+    for j, (name, mod) in enumerate(corpus_items(pid, "V")):
+        yield "c%d" % j, fix_json_module(mod), random.Random("corpus/" + name)
+    if pid in ("C10", "C20"):
+        directed = list(V.directed_modules())
+        pick = directed if count > 2000 else random.Random("dir/%d" % seed).sample(directed, 150)
+        for j, mod in enumerate(pick):
+            yield "d%d" % j, mod, random.Random("dir/%d/%d" % (seed, j))
+    for k in range(count):
+        rng = random.Random(base.randrange(1 << 62))
+        if pid == "C20":
+            mod = V.gen_module(rng, nested=True)
+            tries = 0
+            while not prog_features(mod)["nested"] and tries < 20:
+                mod = V.gen_module(rng, nested=True)
+                tries += 1
+        elif pid == "C10":
+            mod = V.gen_module(rng, nested=rng.random() < 0.5)
+            tries = 0
+            while not prog_features(mod)["flagged"] and tries < 20:
+                mod = V.gen_module(rng, nested=rng.random() < 0.5)
+                tries += 1
+        else:
+            mod = V.gen_module(rng, nested=rng.random() < 0.5)
+        yield k, mod, rng
+
+
+def fix_json_module(mod):
+    """JSON turns tuples into lists: restore tuple constants/defaults where the generator only emits tuples."""
+    def fix(v):
+        if isinstance(v, list) and v in ([1, 2], [5, 6]):
+            return tuple(v)
+        return v
+
+    def fixarg(a):
+        return ["c", fix(a[1])] if a[0] == "c" else a
+    for d in mod["defs"]:
+        for p in d["params"]:
+            if "default" in p:
+                p["default"] = fix(p["default"])
+        for s_ in d["body"]:
+            s_["args"] = [fixarg(a) for a in s_["args"]]
+            if s_.get("kwargs"):
+                s_["kwargs"] = [[k, fixarg(a)] for k, a in s_["kwargs"]]
+            if s_.get("flag") is not None:
+                s_["flag"] = fixarg(s_["flag"])
+        d["ret"]["items"] = [[k, fixarg(a)] for k, a in d["ret"]["items"]]
+    mod["args"] = [fix(a) for a in mod["args"]]
+    return mod
+
+
+def run_V(pid, tier, seed):
+    n = 500 if tier == "quick" else 8000
+    configs = 2 if tier == "quick" else 4
+    failures, samples = [], []
+    stats = dict(programs=0, real_runs=0, oracle_raises=0, agree4=0, model_vs_plain_diff=0, nested=0, flagged=0,
+                 dagflag=0, unpack=0, defaults=0, shapes={}, async_runs=0, config_reloads=0, both_flavours_equal=0,
+                 build_errors=0)
+    distinct = set()
+    cases = {}
+    text = []
+    for k, mod, rng in module_stream(seed, n, pid):
+        stats["programs"] += 1
+        f = prog_features(mod)
+        for key in ("nested", "flagged", "dagflag", "unpack", "defaults"):
+            stats[key] += int(f[key])
+        stats["shapes"][f["shape"]] = stats["shapes"].get(f["shape"], 0) + 1
+        oracle = V.run_oracle(mod)
+        reals = []
+        for c in range(configs):
+            force = None
+            if pid == "C17":
+                force = dict(is_async=(c % 2 == 1), maxc=1 + (c // 2))
+            r, info = V.run_real(mod, rng, controlled=True, force=force)
+            stats["real_runs"] += 1
+            stats["async_runs"] += int(info["is_async"])
+            stats["config_reloads"] += int(info["config"] is not None)
+            reals.append((r, info))
+        cases["m%s" % k] = (mod, oracle, reals)
+        text.append(V.proto("m%s" % k, mod))
+        distinct.add(json.dumps([mod["defs"], mod["args"]], sort_keys=True, default=repr))
+        if len(samples) < 2:
+            samples.append(dict(source=[V.def_source(d, mod["defs"], False) for d in mod["defs"]], args=mod["args"],
+                                protocol=text[-1].splitlines()))
+    out = common.run_driver("Prog", "".join(text))
+    lean = {}
+    for l in out:
+        w = l.split(" ", 2)
+        if len(w) >= 3 and w[1] in ("plain", "model"):
+            lean.setdefault(w[0], {})[w[1]] = w[2]
+    for mid, (mod, oracle, reals) in cases.items():
+        lp, lm = lean.get(mid, {}).get("plain"), lean.get(mid, {}).get("model")
+        if lp is None or lm is None:
+            raise common.HarnessError("driver gave no answer for " + mid)
+        src = [V.def_source(d, mod["defs"], False) for d in mod["defs"]]
+        if oracle[0] != "OK":
+            stats["oracle_raises"] += 1
+            continue   # plain Python raises: nothing is claimed
+        want = "OK " + V.render(oracle[1])
+        if lp != want:
+            failures.append(Failure("correspondence", "V-lean-plain-vs-cpython", mod, dict(lean=lp, cpython=want, source=src), slice_="V"))
+            continue
+        if lm != want:
+            stats["model_vs_plain_diff"] += 1
+        ok_all = True
+        rendered = []
+        for (r, info) in reals:
+            got = ("OK " + V.render(r[1])) if r[0] == "OK" else r[0]
+            rendered.append(got)
+            if got == want:
+                continue
+            ok_all = False
+            if r[0] == "BUILD-ERR":
+                stats["build_errors"] += 1
+                kind = "build-error"
+            elif r[0] == "HANG":
+                kind = "hang"
+            elif r[0] == "ERR":
+                kind = "call-raised:" + r[1]
+            else:
+                kind = "wrong-value"
+            sig = prog_signature(kind, mod, r)
+            failures.append(Failure("counterexample", sig, mod,
+                                    dict(source=src, args=mod["args"], got=got if r[0] == "OK" else list(r), want=want,
+                                         configuration=dict(info, config=info.get("config")), lean_plain=lp, lean_model=lm),
+                                    slice_="V"))
+            break
+        if ok_all:
+            stats["agree4"] += int(lm == want)
+            if pid == "C17" and len(set(rendered)) == 1:
+                stats["both_flavours_equal"] += 1
+            if lm != want:
+                # the code is right, the model is not: repair the model (a broken correspondence)
+                failures.append(Failure("correspondence", "V-model-vs-code", mod, dict(model=lm, real=want, source=src), slice_="V"))
+        else:
+            # model mirrors the code?  (used to tell a modelled defect from an unmodelled one)
+            pass
+    coverage = dict(evaluations=stats["real_runs"], distinct_nontrivial=len(distinct),
+                    rule="random modules of the supported fragment (typed generation so that most programs are valid): "
+                         "flat and nested (<=3 definitions, depth<=3), defaults, keyword/constant arguments, key paths, "
+                         "unpack_to, operators, and_/or_/not_, flags of every form, all return shapes; each executed by "
+                         "CPython with plain wrappers, real tawazi under %d random configurations (attributes, "
+                         "max_concurrency, flavour, config reload via dict/yaml/json, scripted completion orders), Lean plain "
+                         "evaluation and Lean tracer+denotation; distinct = distinct (module, arguments)" % configs,
+                    samples=samples, disagreements_checked=len(failures), **stats)
+    return coverage, failures, None
+
+
+ASSUME_V = [
+    "node functions are deterministic and side-effect free; object identity and in-place mutation are not modelled",
+    "programs on which plain Python raises are outside the claim (tawazi defers some errors until a value is used)",
+    "string rendering of node ids is checked by the correspondence, not proved injective",
+    "fragment: a container of results is not a result (depth-1 return shapes, components passed on individually)",
+]
+
+reg("C01", ["VM.C01_core", "VM.C01_flat", "VM.traceBody_good", "TM.C09_bound"], run_V, ASSUME_V)
+reg("C20", ["VM.C01_core", "VM.C01_flat"], run_V, ASSUME_V)
+reg("C10", ["VM.C01_core", "VM.C01_flat"], run_V, ASSUME_V)
